@@ -499,3 +499,179 @@ pub fn drive_nopanic(seed: u64, rounds: usize, sink: &mut Sink) -> usize {
     }
     n_wf
 }
+
+// ===================================================================== spec -> impl: MC_Library's scripts on the real code
+
+/// An exact rational `[n, d]` of the model, under one of the embeddings (abscissae and ordinates scaled separately,
+/// order-preserving; the second embedding makes every number inexact in binary).
+fn rat(v: &Value, scale: f64) -> f64 {
+    if let Some(x) = v.as_f64() {
+        return x * scale; // scenario files carry plain floats
+    }
+    v[0].as_i64().unwrap() as f64 / v[1].as_i64().unwrap() as f64 * scale
+}
+
+fn build_obj(kind: &str, ends: &[f64], pieces: &[Vec<f64>]) -> DynPw {
+    macro_rules! mk {
+        ($V:ident, $T:ty) => {
+            DynPw::$V(Piecewise { segments: ends.iter().zip(pieces.iter()).map(|(&e, p)| Segment { end: e, poly: <$T>::from_flat(p) }).collect() })
+        };
+    }
+    if kind == "q" {
+        return mk!(Q, IntOfLogPoly4);
+    }
+    if kind == "log" {
+        return match pieces[0].len() - 1 {
+            0 => mk!(L0, Log<Poly0>),
+            1 => mk!(L1, Log<Poly1>),
+            2 => mk!(L2, Log<Poly2>),
+            3 => mk!(L3, Log<Poly3>),
+            4 => mk!(L4, Log<Poly4>),
+            5 => mk!(L5, Log<Poly5>),
+            6 => mk!(L6, Log<Poly6>),
+            7 => mk!(L7, Log<Poly7>),
+            _ => mk!(L8, Log<Poly8>),
+        };
+    }
+    match pieces[0].len() - 1 {
+        0 => mk!(P0, Poly0),
+        1 => mk!(P1, Poly1),
+        2 => mk!(P2, Poly2),
+        3 => mk!(P3, Poly3),
+        4 => mk!(P4, Poly4),
+        5 => mk!(P5, Poly5),
+        6 => mk!(P6, Poly6),
+        7 => mk!(P7, Poly7),
+        _ => mk!(P8, Poly8),
+    }
+}
+
+/// The read-only operations between two mutations, with the handle and the batch iterator alive across them exactly as
+/// the script says (shared borrows of the same object, which is what the model's `Borrow` invariant is about).
+fn run_readonly<T: Evaluate>(p: &Piecewise<T>, ops: &[&Value], sx: f64, sink: &mut Sink) {
+    use std::cell::RefCell;
+    use std::collections::VecDeque;
+    use std::rc::Rc;
+    let mut handle: Option<PiecewiseEvaluator<T>> = None;
+    let feed: Rc<RefCell<VecDeque<f64>>> = Rc::new(RefCell::new(VecDeque::new()));
+    let mut batch: Option<Box<dyn Iterator<Item = f64> + '_>> = None;
+    for o in ops {
+        match o["op"].as_str().unwrap() {
+            "eval" => {
+                let x = rat(&o["x"], sx);
+                let y = p.evaluate(x);
+                sink.ev(json!({"ev":"lib","op":"eval","x":jb(x),"y":jb(y)}));
+            }
+            "new" => {
+                handle = Some(PiecewiseEvaluator::new(&p.segments));
+                sink.ev(json!({"ev":"lib","op":"new"}));
+            }
+            "query" => {
+                let x = rat(&o["x"], sx);
+                let ev = handle.as_mut().expect("script queries without a handle");
+                let y = ev.evaluate(x);
+                let st = ev.verif_state();
+                sink.ev(json!({"ev":"lib","op":"query","x":jb(x),"y":jb(y),"off":st.0,"tail":st.1,"last":jbits(st.2)}));
+            }
+            "drop" => {
+                handle = None;
+                sink.ev(json!({"ev":"lib","op":"drop"}));
+            }
+            "vstart" => {
+                let f = feed.clone();
+                f.borrow_mut().clear();
+                batch = Some(Box::new(p.evaluate_v(std::iter::from_fn(move || f.borrow_mut().pop_front()))));
+                sink.ev(json!({"ev":"lib","op":"vstart"}));
+            }
+            "vnext" => {
+                let x = rat(&o["x"], sx);
+                feed.borrow_mut().push_back(x);
+                let y = batch.as_mut().expect("script feeds without a batch").next().expect("evaluate_v yielded nothing for an input");
+                sink.ev(json!({"ev":"lib","op":"vnext","x":jb(x),"y":jb(y)}));
+            }
+            "vend" => {
+                batch = None;
+                sink.ev(json!({"ev":"lib","op":"vend"}));
+            }
+            other => panic!("not a read-only operation: {other}"),
+        }
+    }
+}
+
+/// Every script (TLC's from MC_Library `EmitScript`, or a scenario file's) under the given embeddings, as ordinary `lib` events.
+pub fn replay_lib(lines: &[Value], embeddings: &[(f64, f64)], sink: &mut Sink) -> usize {
+    let mut n = 0;
+    for l in lines {
+        let kind = l["kind"].as_str().unwrap();
+        let ops = l["ops"].as_array().unwrap();
+        for &(sx, sy) in embeddings {
+            // the quartic form lives on v > 0: shift nothing, but its values at x <= 0 are out of the trace spec's scope
+            let ends_of_v = |v: &Value| v.as_array().unwrap().iter().map(|e| rat(e, sx)).collect::<Vec<f64>>();
+            let pieces_of_v = |v: &Value| v.as_array().unwrap().iter().map(|p| p.as_array().unwrap().iter().map(|c| rat(c, sy)).collect::<Vec<f64>>()).collect::<Vec<_>>();
+            let mut obj = build_obj(kind, &ends_of_v(&ops[0]["ends"]), &pieces_of_v(&ops[0]["pieces"]));
+            let (e, p) = obj.state();
+            sink.ev(json!({"ev":"lib","op":"create","kind":obj.kind(),"ends":e,"pieces":p}));
+            n += 1;
+            let mut i = 1;
+            while i < ops.len() {
+                let o = &ops[i];
+                match o["op"].as_str().unwrap() {
+                    "scale" => {
+                        let s = rat(&o["s"], 1.0);
+                        let assign = o["assign"].as_bool().unwrap_or((i + n) % 2 == 0) && obj.has_mul_assign();
+                        obj = obj.scale(s, assign);
+                        let (e, p) = obj.state();
+                        sink.ev(json!({"ev":"lib","op":"scale","s":jb(s),"ends":e,"pieces":p}));
+                    }
+                    "neg" => {
+                        obj = obj.neg();
+                        let (e, p) = obj.state();
+                        sink.ev(json!({"ev":"lib","op":"neg","ends":e,"pieces":p}));
+                    }
+                    "translate" => {
+                        let c = rat(&o["s"], sy);
+                        obj = obj.translate(c);
+                        let (e, p) = obj.state();
+                        sink.ev(json!({"ev":"lib","op":"translate","s":jb(c),"ends":e,"pieces":p}));
+                    }
+                    "derive" => {
+                        obj = obj.derive();
+                        let (e, p) = obj.state();
+                        sink.ev(json!({"ev":"lib","op":"derive","ends":e,"pieces":p}));
+                    }
+                    "integrate" => {
+                        let k = Knot { x: rat(&o["kx"], sx), y: rat(&o["ky"], sy) };
+                        obj = obj.integrate(k);
+                        let (e, p) = obj.state();
+                        sink.ev(json!({"ev":"lib","op":"integrate","kx":jb(k.x),"ky":jb(k.y),"kind":obj.kind(),"ends":e,"pieces":p}));
+                    }
+                    name @ ("add" | "sub") => {
+                        let g = build_obj(kind, &ends_of_v(&o["g"]["ends"]), &pieces_of_v(&o["g"]["pieces"]));
+                        let (ge, gp) = g.state();
+                        obj = match (&obj, &g) {
+                            (DynPw::Q(f), DynPw::Q(g)) => DynPw::Q(if name == "sub" { f - g } else { f + g }),
+                            // the library offers + and - for no polynomial piece type: the step is not replayable
+                            _ => break,
+                        };
+                        let (e, p) = obj.state();
+                        sink.ev(json!({"ev":"lib","op":name,"gends":ge,"gpieces":gp,"ends":e,"pieces":p}));
+                    }
+                    _ => {
+                        let mut j = i;
+                        while j < ops.len() && matches!(ops[j]["op"].as_str().unwrap(), "eval" | "new" | "query" | "drop" | "vstart" | "vnext" | "vend") {
+                            j += 1;
+                        }
+                        let run: Vec<&Value> = ops[i..j].iter().collect();
+                        each!(&obj, p => run_readonly(p, &run, sx, sink));
+                        n += j - i;
+                        i = j;
+                        continue;
+                    }
+                }
+                n += 1;
+                i += 1;
+            }
+        }
+    }
+    n
+}
